@@ -74,6 +74,8 @@ CONFIGS = {
                 "BufCap": 2, "Costs": [1], "InitMaxCost": 20, "MaxCosts": [20], "TTLs": [0, 1, 4], "MaxTime": 7},
     "sim_handoff": {"Keys": [1, 2], "Hashes": [1, 2], "Clients": [1, 2, 3], "MaxOps": 8, "Ops": ["set", "del", "wait", "clear", "get"],
                     "BufCap": 1, "Costs": [1, 2], "InitMaxCost": 2, "MaxCosts": [2]},
+    "sim_clear1": {"Keys": [1, 2], "Hashes": [1, 2], "Clients": [1], "MaxOps": 9, "Ops": ["set", "del", "wait", "clear", "get"],
+                   "BufCap": 3, "Costs": [1], "InitMaxCost": 2, "MaxCosts": [2], "TTLs": [0, 2], "MaxTime": 3},
     "sim_close": {"Keys": [1, 2], "Hashes": [1, 2], "Clients": [1, 2], "MaxOps": 9, "Ops": ["set", "del", "wait", "clear", "close", "get", "iter"],
                   "BufCap": 2, "Costs": [1], "InitMaxCost": 2, "MaxCosts": [2], "TTLs": [0, 2], "MaxTime": 3},
     "sim_coll": {"Keys": [1, 2, 3], "Hashes": [1, 2], "HashOf": "CollHash", "ConfOf": "CollConf", "MaxOps": 9,
@@ -107,7 +109,7 @@ PLAN = {
     "C07": {"mc": {"quick": ["ttl2"], "thorough": ["ttl3", "ref5"]},
             "sim": [("sim_ttl", 500, 8000, 60), ("sim_ref", 400, 6000, 70)]},
     "C08": {"mc": {"quick": ["handoff3"], "thorough": ["handoff4"]}, "live": {"quick": ["handoff3"], "thorough": ["handoff3", "live4"]},
-            "sim": [("sim_handoff", 400, 6000, 60), ("sim_close", 200, 3000, 60)], "free": (2, 30), "race": True},
+            "sim": [("sim_handoff", 400, 6000, 60), ("sim_close", 200, 3000, 60)], "free": (2, 30), "race": True, "ring": True},
     "C09": {"mc": {"quick": ["cost4"], "thorough": ["cost5"]},
             "sim": [("sim_cost", 800, 12000, 70)]},
     "C13": {"mc": {"quick": ["write3", "ttl2"], "thorough": ["write4", "ttl3", "handoff4"]},
@@ -115,8 +117,8 @@ PLAN = {
     "C14": {"mc": {"quick": ["ttl2"], "thorough": ["ttl3"]},
             "sim": [("sim_ttl", 800, 12000, 60)]},
     "C15": {"mc": {"quick": ["handoff3", "close3"], "thorough": ["handoff4", "close4"]},
-            "sim": [("sim_close", 500, 8000, 60), ("sim_handoff", 300, 4000, 60)]},
-    "C17": {"mc": {"quick": ["write3", "cost4"], "thorough": ["write4", "cost5", "handoff4"]},
+            "sim": [("sim_close", 400, 6000, 60), ("sim_clear1", 300, 4000, 60), ("sim_handoff", 200, 3000, 60)]},
+    "C17": {"ring": True, "mc": {"quick": ["write3", "cost4"], "thorough": ["write4", "cost5", "handoff4"]},
             "sim": [("sim_write", 300, 4000, 60), ("sim_cost", 300, 4000, 70), ("sim_handoff", 200, 3000, 60)]},
 }
 
@@ -133,6 +135,8 @@ GOAL_CFG = {
               "Costs": [1], "InitMaxCost": 20, "MaxCosts": [20], "TTLs": [0, 1, 4], "MaxTime": 8},
     "g_ttl1": {"Keys": [1, 2], "Hashes": [1, 2], "Clients": [1], "MaxOps": 6, "Ops": ["set", "del", "wait", "get"], "BufCap": 2,
                "Costs": [1], "InitMaxCost": 20, "MaxCosts": [20], "TTLs": [0, 1, 4], "MaxTime": 8},
+    "g_clear1": {"Keys": [1, 2], "Hashes": [1, 2], "Clients": [1], "MaxOps": 6, "Ops": ["set", "del", "wait", "clear", "get"], "BufCap": 3,
+                 "Costs": [1], "InitMaxCost": 2, "MaxCosts": [2], "TTLs": [0, 2], "MaxTime": 2},
     "g_clear": {"Keys": [1, 2], "Hashes": [1, 2], "Clients": [1, 2, 3], "MaxOps": 8, "Ops": ["set", "del", "wait", "clear"], "BufCap": 3,
                 "Costs": [1], "InitMaxCost": 2, "MaxCosts": [2]},
 }
@@ -140,12 +144,12 @@ GOALS = {
     "G_RejectWithVictims": "g_cost", "G_TwoVictims": "g_cost", "G_DuplicateVictim": "g_cost", "G_RaiseCost": "g_cost",
     "G_DroppedUpdate": "g_write", "G_BlockedDel": "g_write", "G_UpdateOfEvicted": "g_upd",
     "G_SweepWithBuffered": "g_ttl", "G_LateApply": "g_ttl", "G_ExpiredUnswept": "g_ttl",
-    "G_ClearWithBacklog": "g_clear", "G_ClearWhileBusy": "g_clear",
+    "G_ClearWithBacklog": "g_clear", "G_ClearWhileBusy": "g_clear", "G_ClearWithPending": "g_clear1",
 }
 GOALS_FOR = {
     "C02": ["G_UpdateOfEvicted", "G_DroppedUpdate", "G_ClearWhileBusy"],
     "C03": ["G_RaiseCost", "G_TwoVictims", "G_DuplicateVictim", "G_UpdateOfEvicted"],
-    "C04": ["G_DroppedUpdate", "G_RejectWithVictims", "G_ClearWithBacklog", "G_ExpiredUnswept"],
+    "C04": ["G_DroppedUpdate", "G_RejectWithVictims", "G_ClearWithBacklog", "G_ExpiredUnswept", "G_ClearWithPending"],
     "C05": ["G_BlockedDel", "G_ClearWithBacklog"],
     "C06": ["G_LateApply1", "G_ExpiredUnswept1"],
     "C07": ["G_ExpiredUnswept", "G_LateApply", "G_ExpiredUnswept1"],
@@ -153,8 +157,8 @@ GOALS_FOR = {
     "C09": ["G_RejectWithVictims", "G_TwoVictims", "G_DuplicateVictim"],
     "C13": ["G_RejectWithVictims", "G_BlockedDel", "G_LateApply", "G_UpdateOfEvicted"],
     "C14": ["G_SweepWithBuffered", "G_LateApply", "G_ExpiredUnswept"],
-    "C15": ["G_ClearWithBacklog", "G_ClearWhileBusy", "G_ExpiredUnswept"],
-    "C17": ["G_RejectWithVictims", "G_DroppedUpdate", "G_UpdateOfEvicted", "G_ClearWhileBusy"],
+    "C15": ["G_ClearWithBacklog", "G_ClearWhileBusy", "G_ExpiredUnswept", "G_ClearWithPending"],
+    "C17": ["G_RejectWithVictims", "G_DroppedUpdate", "G_UpdateOfEvicted", "G_ClearWhileBusy", "G_ClearWithPending"],
 }
 
 
@@ -304,6 +308,21 @@ def run(ctx, pid):
                     if '"ev":"New"' in ln:     # remember which configuration a trace came from
                         ln = ln.rstrip("\n")[:-1] + ',"config":"%s"}\n' % name
                     allf.write(ln)
+        ring_info = None
+        if plan.get("ring"):
+            # the Get-frequency pipeline (ring stripes -> itemsCh -> policy goroutine) has its own design spec
+            rst, rtr, rtrace, rsumm = cachelib.ring_phase(ctx, ctx.pick(300, 4000), race=plan.get("race", ctx.tier == "thorough"))
+            states += rst
+            trans += rtr
+            for k in ("traces", "events", "drift", "steps"):
+                total[k] += rsumm.get(k, 0)
+            drift_first += ["ring: " + x for x in (rsumm.get("driftFirst") or [])][:2]
+            ring_info = {"design_states": rst, "behaviours": rsumm.get("behaviours"), "steps": rsumm.get("steps"), "drift": rsumm.get("drift")}
+            with open(rtrace) as f:
+                for ln in f:
+                    if '"ev":"New"' in ln:
+                        ln = ln.rstrip("\n")[:-1] + ',"config":"ring"}\n'
+                    allf.write(ln)
         # free-running concurrent executions (not derived from the model), judged by the same observers
         fr = plan.get("free", (1, 6))
         rounds = ctx.pick(fr[0], fr[1])
@@ -337,7 +356,7 @@ def run(ctx, pid):
         "behaviours_replayed": total["realised"], "behaviours_unrealised": total["unrealised"],
         "replay_steps": total["steps"], "events_validated": total["events"],
         "design_counterexamples_replayed": len(leads),
-        "model_checking_runs": mcsumm, "liveness_runs": live_summ, "coverage_goals": goal_summ, "free_running": free_info,
+        "model_checking_runs": mcsumm, "liveness_runs": live_summ, "coverage_goals": goal_summ, "ring_pipeline": ring_info, "free_running": free_info,
         "samples": samples[:4],
         "exhaustive": True,
         "rule": "exhaustive TLC on the listed small configurations of Ristretto.tla; TLC -simulate behaviours of the larger "
